@@ -203,30 +203,69 @@ func (rr *DefaultRelationsResolver) SortStates(states S) {
 
 	rr.sortRequire(states)
 
-	// sort by After
+	// sort by After: a stable topological order (After is a partial order, so
+	// a comparison sort only ever honoured it for neighbours)
 	// TODO optimize / cache (but not in debug, to have steps)
-	sort.SliceStable(states, func(i, j int) bool {
-		name1 := states[i]
-		name2 := states[j]
-		state1 := m.schema[name1]
-		state2 := m.schema[name2]
-
-		// forward relations
-		if slices.Contains(state1.After, name2) {
-			if t.isLogSteps() {
-				t.addSteps(newStep(name2, name1, StepRelation, RelationAfter))
+	sorted := make(S, 0, len(states))
+	left := slices.Clone(states)
+	// waitsFor lists the states from [left] which [name] goes After
+	waitsFor := func(name string) S {
+		var ret S
+		for _, other := range left {
+			if other != name && slices.Contains(m.schema[name].After, other) {
+				ret = append(ret, other)
 			}
-			return false
-
-		} else if slices.Contains(state2.After, name1) {
-			if t.isLogSteps() {
-				t.addSteps(newStep(name1, name2, StepRelation, RelationAfter))
-			}
-			return true
 		}
-
+		return ret
+	}
+	// inCycle tells if [name] transitively waits for itself
+	inCycle := func(name string) bool {
+		seen := S{}
+		todo := waitsFor(name)
+		for len(todo) > 0 {
+			cur := todo[0]
+			todo = todo[1:]
+			if cur == name {
+				return true
+			}
+			if slices.Contains(seen, cur) {
+				continue
+			}
+			seen = append(seen, cur)
+			todo = append(todo, waitsFor(cur)...)
+		}
 		return false
-	})
+	}
+	for len(left) > 0 {
+		// pick the first state which doesn't have to wait for any other listed
+		// one; when all of them wait, break a cycle at its first member
+		pick := -1
+		for i, name := range left {
+			if len(waitsFor(name)) == 0 {
+				pick = i
+				break
+			}
+		}
+		for i := 0; pick == -1 && i < len(left); i++ {
+			if inCycle(left[i]) {
+				pick = i
+			}
+		}
+		if pick == -1 {
+			pick = 0
+		}
+		name := left[pick]
+		for _, other := range left {
+			if other != name && slices.Contains(m.schema[other].After, name) &&
+				t.isLogSteps() {
+
+				t.addSteps(newStep(other, name, StepRelation, RelationAfter))
+			}
+		}
+		sorted = append(sorted, name)
+		left = slices.Delete(left, pick, pick+1)
+	}
+	copy(states, sorted)
 }
 
 // sortRequire sorts the states by Require relations.
